@@ -145,6 +145,22 @@ def run(rep, model, tier, seed, broken=()):
                                    out_crlf=r3["text"], status=[r1["status"], r2["status"], r3["status"]],
                                    model=[m1["status"], m2["status"]], oracle="layout"),
                               no_input=prob.startswith("model page"))
+    for c in pipe.corpus_cases("C04"):
+        c3 = dict(c, data=c["data"].replace(b"\r\n", b"\n").replace(b"\n", b"\r\n"))
+        r1, r3 = pipe.impl_run(c, capture=False), pipe.impl_run(c3, capture=False)
+        m1 = pipe.dec_page(model.call(pipe.req_page(c)))
+        rep.count_case(("corpus", c["data"]), True)
+        rep.dist("corpus_pages")
+        prob = None
+        if r1["status"] != m1["status"] or r1["text"] != m1["text"]:
+            prob = "corpus scenario: page differs from the model"
+        elif r1["status"] != r3["status"] or (r1["status"] == "ok" and norm_crlf(r1["text"]) != norm_crlf(r3["text"])):
+            prob = "corpus scenario: CRLF variant differs beyond line endings / whitespace-only lines"
+        if prob:
+            nv += 1
+            rep.violation(dict(kind=prob, layout1=c["data"].decode("utf-8", "replace"), layout2=c3["data"].decode("utf-8", "replace"),
+                               out1=r1["text"], out2=r3["text"], model=[m1["status"]], oracle="layout"),
+                          no_input=prob.endswith("model"))
     rep.coverage["layout_violations"] = nv
     rep.coverage["correspondence"]["layout pairs (impl metamorphic + model)"] = npairs
     chk, bad = core.vm_crosscheck(pairs)
